@@ -16,7 +16,7 @@ import (
 func init() {
 	register(&Property{
 		ID:        "C03",
-		Technique: "must-lockset (Stream.mu), guard dominance (check-then-act), typestate for unlock→checkFinished ordering, switch exhaustiveness over the Kind constant set",
+		Technique: "must-lockset (Stream.mu), guard dominance (check-then-act), typestate for unlock→checkFinished ordering, switch exhaustiveness over the Kind constant set; tested-then-dropped error (contradiction) check and interprocedural lock-pairing check over the packages the property is anchored in; flag/mutex pairing inside the inspectable mutex",
 		Explanation: "Structural conditions of the stream state machine, on every path: " +
 			"(R1) every state-signal Set and every terminate call runs under Stream.mu; fin/ctx signals are set only inside checkFinished's first-wins branch; " +
 			"(R2) every terminal emission (sendPacketLocked) is check-then-act under mu: term (and send for half-close) tested, state changed, all before mu is released; " +
@@ -1186,45 +1186,82 @@ func c03r11(c *an.Ctx) {
 }
 
 // c03r12: a terminal call on a stream that is already terminated is a no-op
-// that succeeds. The server calls SendError/CloseSend after every handler; an
-// error from them makes ServeOne give up the whole connection.
+// that succeeds: the only error such a call reports is the one of its own
+// emission. The server calls SendError/CloseSend after every handler; any
+// other error makes ServeOne give up the whole connection.
 func c03r12(c *an.Ctx) {
 	sa := streamA(c)
 	n := 0
 	for _, name := range []string{"SendError", "SendCancel", "Close", "CloseSend"} {
 		fn := c.Fn("drpcstream", "(*Stream)."+name)
 		c.Analysed(fn)
-		found, okNil := false, true
-		var at ssa.Instruction
+		var fromEmission func(v ssa.Value, depth int) bool
+		fromEmission = func(v ssa.Value, depth int) bool {
+			if depth > 5 || v == nil {
+				return false
+			}
+			call, ok := an.Unwrap(v).(*ssa.Call)
+			if !ok {
+				return false
+			}
+			if an.IsCallTo(call.Common(), sa.sendPkt) {
+				return true
+			}
+			for _, a := range call.Common().Args {
+				if fromEmission(a, depth+1) {
+					return true
+				}
+			}
+			return false
+		}
+		seen := map[ssa.Value]bool{}
+		var leaves func(v ssa.Value, depth int) []ssa.Value
+		leaves = func(v ssa.Value, depth int) []ssa.Value {
+			if v == nil || seen[v] || depth > 8 {
+				return nil
+			}
+			seen[v] = true
+			switch x := v.(type) {
+			case *ssa.Phi:
+				var out []ssa.Value
+				for _, e := range x.Edges {
+					out = append(out, leaves(e, depth+1)...)
+				}
+				return out
+			case *ssa.UnOp:
+				if a, ok := x.X.(*ssa.Alloc); ok && x.Op == token.MUL {
+					var out []ssa.Value
+					for _, st := range an.ReachingStores(a, x) {
+						if st == nil {
+							continue // the zero value: nil
+						}
+						out = append(out, leaves(st, depth+1)...)
+					}
+					return out
+				}
+			}
+			return []ssa.Value{v}
+		}
+		bad := ""
+		nVals, emits := 0, false
 		for _, ret := range an.Returns(fn) {
-			if !retReachable(fn, ret) {
+			if !retReachable(fn, ret) || len(ret.Results) == 0 {
 				continue
 			}
-			// an early way out: no terminal packet was sent on the way here (the stream is already terminated or
-			// send-closed, or the call found the stream busy)
-			sent := false
-			for _, cs := range an.CallsTo(fn, false, sa.sendPkt) {
-				if an.CanReach(cs.Instr, ret) {
-					sent = true
-				}
-			}
-			if sent || len(ret.Results) == 0 {
-				continue
-			}
-			found = true
-			n++
-			for _, v := range returnedValues(ret, len(ret.Results)-1) {
-				if v != nil && !an.IsNilConst(v) {
-					okNil = false
-					at = ret
+			for _, v := range leaves(ret.Results[len(ret.Results)-1], 0) {
+				nVals++
+				switch {
+				case an.IsNilConst(v):
+				case fromEmission(v, 0):
+					emits = true
+				default:
+					bad = an.R(v)
 				}
 			}
 		}
-		pos := c.P.Pos(fn.Pos())
-		if at != nil {
-			pos = c.At(at)
-		}
-		c.Check(found && okNil, "(*Stream)."+name+" | every way out that sends nothing (already terminated, busy) returns nil", pos, "", "the call reports an error for a stream that is already terminated (or has no such early way out): the server treats a failed SendError/CloseSend as a broken connection and closes it, taking the next RPC with it")
+		n += nVals
+		c.Check(bad == "" && emits, "(*Stream)."+name+" | the only error it reports is the one of its own emission (nil when it sends nothing)", c.P.Pos(fn.Pos()), "",
+			"the call can report an error that does not come from writing its packet ("+bad+"), e.g. for a stream that is already terminated: the server treats a failed SendError/CloseSend as a broken connection and closes it, taking the next RPC with it")
 	}
-	c.Floor("early returns of terminal calls", 4, n)
+	c.Floor("error values returned by terminal calls", 4, n)
 }
